@@ -4,6 +4,7 @@
   observations made (correspondence); the theorems in Rtp/Props state the predicates about them.
 -/
 import Rtp.Model.AV1Pay
+import Rtp.Model.AV1PayBytes
 import Rtp.Model.AV1Depack
 import Rtp.Model.AV1Packet
 import Rtp.Pred.C08
@@ -33,10 +34,11 @@ def framesOf : Bytes → List Bytes → List (List Bytes)
       r.1 :: framesOf r.2 ps
     | _ => [] :: framesOf buf ps
 
-/-- Payload, then each payload through a fresh AV1Packet + one frame.AV1, and through one
-    AV1Depacketizer -/
+/-- Payload (the byte-level transcription `payloadB`; `AV1B.payloadB_eq` proves it equal to the
+    record-based `AV1.payload` the theorems are stated about), then each payload through a fresh
+    AV1Packet + one frame.AV1, and through one AV1Depacketizer -/
 def rtObs (mtu : UInt16) (stream : Bytes) : Pred.C13.RtObs :=
-  let ps := AV1.payload mtu stream
+  let ps := AV1B.payloadB mtu stream
   { panicked := false, payloads := ps, views := ps.map viewOf, frames := framesOf [] ps,
     depack := (depFeed {} ps).1.map Res.coarse }
 
@@ -62,7 +64,7 @@ def resyncObs (pre : List (Option Bytes)) (frame : List Bytes) : Pred.C15Av1.Obs
 /-! ### c08.av1 (AV1Payloader has no state: a history is a list of independent calls) -/
 
 def c08Obs (calls : List (UInt16 × Option Bytes)) : List Pred.PayObs :=
-  calls.map (fun (m, i) => Pred.PayObs.ofFrags (AV1.payload m (i.getD [])))
+  calls.map (fun (m, i) => Pred.PayObs.ofFrags (AV1B.payloadB m (i.getD [])))
 
 /-! ### c09.av1 -/
 
